@@ -144,6 +144,10 @@
 (*                        of Func.LLString and Block.LLString              *)
 (*   PrintFuncIsPart      after a module print, Func.LLString of each      *)
 (*                        function is that function's part of the text     *)
+(*   ObserverOrderFree    whether Func.LLString / Block.LLString return    *)
+(*                        text or panic does not depend on Type() having   *)
+(*                        been asked before (switch PrintReadsTyp = TRUE:  *)
+(*                        the code as it is for a struct-literal phi)      *)
 (*                                                                         *)
 (* ROUND 8 (count-preserving edits, indirect symbols, half-built IR)        *)
 (*   mutators   ReplaceInst(f, b, p, inst) (b.Insts[p] = a new instruction:  *)
@@ -169,6 +173,25 @@
 (*              (ObserverTransparent after the IR has been completed).  With  *)
 (*              UnlockOnPanic = FALSE the mutex stays held and every later    *)
 (*              print is "blocked" (does not return).                         *)
+(*                                                                         *)
+(* ROUND 9 (restructuring, identity fields assigned directly)                *)
+(*   mutators   RemoveBlock(f, b) / MoveBlock(f, b, g): f.Blocks loses the     *)
+(*              block, g.Blocks = append(g.Blocks, block) -- the block object  *)
+(*              moves with every ID a print cached in it (and with its stale   *)
+(*              Parent link, which nothing reads); NewBlock with det: the      *)
+(*              block is built by ir.NewBlock and appended to f.Blocks (Parent *)
+(*              nil) instead of f.NewBlock; SetNameField(target, name): the    *)
+(*              exported field LocalName / GlobalName is assigned, so the      *)
+(*              cached ID is NOT cleared as SetName does; SetID(target, n):    *)
+(*              the client stores an ID of its own (SetID / LocalID = n);      *)
+(*              RemoveGlobal(group): the last entry of m.Globals / m.Aliases / *)
+(*              m.IFuncs is cut off (if nothing refers to it), so the unnamed  *)
+(*              definitions of the later groups move up by one number.         *)
+(*   switch     TrustCachedID: FALSE = the code (a print renumbers every       *)
+(*              unnamed local, whatever ID it carries); TRUE = an unnamed      *)
+(*              local that carries a non-zero ID keeps it (vacuity guard: a    *)
+(*              block printed in one function and moved to another keeps the   *)
+(*              number of its old place).                                      *)
 (*                                                                         *)
 (* BOUNDS  the structure bounds make the object graph finite; MaxCalls = 0 *)
 (* explores it without bounding the history (closed model, any number of   *)
@@ -222,7 +245,8 @@ CONSTANTS ValidateOnPrint,   \* TRUE = pinned tree, FALSE = as required
                              \* (part of hist, not counted by MaxCalls): "typed" builds a global, a function, an alloca and
                              \* typed uses of both; "indirect" a global, an alias of it, an ifunc, a function that uses alias
                              \* and ifunc as typed operands; "body" a function with a parameter and two instructions;
-                             \* "func" a function with one finished block
+                             \* "func" a function with one finished block; "pair" two functions (the first with an unnamed parameter), each with a
+                             \* finished block that holds one value instruction
           IndirectRefresh,   \* when Alias.Type() / IFunc.Type() recompute the cached Typ from the aliasee / resolver:
                              \* "never" = the code (computed by NewAlias / NewIFunc, kept for good; the definition line
                              \* reads the field); "query" = Type() follows the aliasee but the definition line still reads
@@ -239,7 +263,13 @@ CONSTANTS ValidateOnPrint,   \* TRUE = pinned tree, FALSE = as required
                              \* transparent (Typ is computed by the first Type() call and never again): vacuity guard
           DepKinds,          \* instructions whose cached Typ comes from operands that can be assigned after
                              \* construction: subset of {"phi", "select", "call"} ({} = none)
-          Edits,             \* further mutators: subset of {"ReplaceInst", "SwapInsts", "SetTarget", "FillArgs", "RetypeArgs"}
+          Edits,             \* further mutators: subset of {"ReplaceInst", "SwapInsts", "SetTarget", "FillArgs", "RetypeArgs",
+                             \* "RemoveBlock", "MoveBlock", "DetachedBlock", "RemoveGlobal", "SetNameField", "SetID"}
+          PrintReadsTyp,     \* FALSE = required: Block.LLString asks every instruction for its Type(); TRUE = the code as
+                             \* it is for phi (InstPhi.LLString reads the field Typ: nil dereference when no Type() call has
+                             \* filled it -- a phi built as a struct literal prints only after somebody asked for its type)
+          TrustCachedID,     \* FALSE = the code: AssignIDs renumbers every unnamed local; TRUE = an unnamed local that
+                             \* carries a non-zero ID keeps it (vacuity guard)
           Observers,         \* subset of {"PrintModule","PrintFunc","PrintBlock","QueryType","QueryIdent","QueryOperands","QuerySuccs"}
           EmitFile
 
@@ -501,6 +531,15 @@ LocalCount(body) == Len(body.params) + Len(body.blocks) + InstCount(body.blocks)
 HalfBuilt(body) == \E b \in 1..Len(body.blocks) : \E p \in 1..Len(body.blocks[b].insts) : DepHalf(body.blocks[b].insts[p])
 LockIf(w, f) == IF UnlockOnPanic THEN w ELSE [w EXCEPT !.gl.funcs[f].lk = TRUE]
 
+\* the TrustCachedID variant of AssignIDs: o = the body before the walk, n = after it
+Keep(o, n) == IF TrustCachedID /\ o.name = "" /\ o.id # 0 THEN [n EXCEPT !.id = o.id] ELSE n
+KeepSeq(os, ns) == [j \in 1..Len(ns) |-> Keep(os[j], ns[j])]
+TrustBody(o, n) ==
+  [params |-> KeepSeq(o.params, n.params),
+   blocks |-> [j \in 1..Len(n.blocks) |->
+                 [Keep(o.blocks[j], n.blocks[j]) EXCEPT !.insts = KeepSeq(o.blocks[j].insts, n.blocks[j].insts),
+                                                        !.term = Keep(o.blocks[j].term, n.blocks[j].term)]]]
+
 \* (*Func).assignIDs, [ok, why, w]: takes the mutex ("blocked": it is held for good), walks (asking every
 \* instruction for its Type), releases the mutex by defer.  A panic in the walk leaves the IDs written so far
 \* behind; they are rewritten by the next print and not modelled.
@@ -510,7 +549,7 @@ NumberW(w, f, validate) ==
   ELSE IF CountMemo /\ ~validate /\ w.gl.funcs[f].nb = LocalCount(body) THEN [ok |-> TRUE, why |-> "", w |-> w]
   ELSE IF EmptyType = "panic" /\ HalfBuilt(body) THEN [ok |-> FALSE, why |-> "half-built", w |-> w]
   ELSE LET a  == AssignLocalIDs(body, validate)
-           w1 == [w EXCEPT !.fn[f] = IF a.ok THEN FillBody(DedupBody(a.f)) ELSE a.f,
+           w1 == [w EXCEPT !.fn[f] = IF a.ok THEN FillBody(DedupBody(IF TrustCachedID THEN TrustBody(body, a.f) ELSE a.f)) ELSE a.f,
                            !.gl.funcs[f].nb = IF CountMemo /\ a.ok THEN LocalCount(body) ELSE @]
        IN [ok |-> a.ok, why |-> IF a.ok THEN "" ELSE "local-id", w |-> w1]
 
@@ -573,11 +612,19 @@ PrintModuleW(w, validate) ==
                      ELSE [w |-> r.w, out |-> [r.out EXCEPT !.mdt = @ \o MdIdsOf(r.w.md)]]
 
 \* Block.LLString: no assignment at all; the operands it prints are asked for their type
+\* a phi that has its operands but whose Typ nobody has computed yet (struct literal + operands assigned)
+PhiUnset(blk) == \E p \in 1..Len(blk.insts) :
+                   blk.insts[p].op = "dep" /\ blk.insts[p].kind = "phi" /\ blk.insts[p].args # <<>> /\ ~blk.insts[p].tc.set
 PrintBlockW(w, f, b) ==
   LET blk == w.fn[f].blocks[b]
-      w1  == TouchInsts(w, f, blk.insts)
-  IN [w |-> w1, out |-> IF blk.term.k = "none" THEN Panic("no-term")
-                        ELSE Ok(BlockText(blk), InstsTy(w1, f, blk.insts), SeqAtt(w1, blk.insts))]
+      w0  == TouchInsts(w, f, blk.insts)
+      \* required: InstPhi.LLString asks Type(), which fills the cache
+      w1  == IF PrintReadsTyp THEN w0
+             ELSE [w0 EXCEPT !.fn[f].blocks[b].insts = [p \in 1..Len(@) |-> IF @[p].kind = "phi" THEN FillD(@[p]) ELSE @[p]]]
+  IN IF PrintReadsTyp /\ PhiUnset(blk) THEN [w |-> w0, out |-> Panic("nil-typ")]
+     ELSE LET is1 == w1.fn[f].blocks[b].insts IN
+          [w |-> w1, out |-> IF blk.term.k = "none" THEN Panic("no-term")
+                             ELSE Ok(BlockText(blk), InstsTy(w1, f, is1), SeqAtt(w1, is1))]
 
 \* Type() and String() of every object
 QueryTypeW(w) ==
@@ -614,6 +661,14 @@ SwapInstsW(w, f, b, p, q)   == [w EXCEPT !.fn[f].blocks[b].insts =
 SetTargetW(w, g, i, r)      == [w EXCEPT !.gl[g][i].ref = r]
 \* phi.Incs = two incoming values / select.ValueTrue, ValueFalse = ... / call.Callee = ... of type ty
 SetArgsW(w, f, b, p, ty)    == [w EXCEPT !.fn[f].blocks[b].insts[p] = [@ EXCEPT !.args = <<1, 2>>, !.aty = ty]]
+
+\* f.Blocks = f.Blocks without block b (slice operations on the exported field); g.Blocks = append(g.Blocks, block).
+\* Only functions whose terminators have no successor (ret, or none yet): tgt is the block's own index then.
+Reindex(bs) == [j \in 1..Len(bs) |-> [bs[j] EXCEPT !.term.tgt = IF bs[j].term.k = "none" THEN 0 ELSE j]]
+RemoveBlockW(w, f, b)  == [w EXCEPT !.fn[f].blocks = Reindex(DelAt(@, b))]
+MoveBlockW(w, f, b, g) == LET blk == w.fn[f].blocks[b]
+                              w1  == [w EXCEPT !.fn[f].blocks = Reindex(DelAt(@, b))]
+                          IN [w1 EXCEPT !.fn[g].blocks = Reindex(Append(@, blk))]
 
 \* operand-level edits of a call2 / phi2
 \* call.Args = []value.Value{a, b} (phi.Incs = ...): a new backing array -- a kept slot list goes stale
@@ -693,6 +748,16 @@ SetNameW(w, tg, nm) ==
     [] tg.t = "block"  -> [w EXCEPT !.fn[tg.f].blocks[tg.b] = Renamed(@, nm)]
     [] tg.t = "inst"   -> [w EXCEPT !.fn[tg.f].blocks[tg.b].insts[tg.p] = Renamed(@, nm)]
     [] tg.t = "term"   -> [w EXCEPT !.fn[tg.f].blocks[tg.b].term = Renamed(@, nm)]
+\* x.LocalName = nm / x.GlobalName = nm: the exported field is assigned, the cached id stays
+NameKept(n, nm) == [n EXCEPT !.name = nm]
+\* x.SetID(v) / x.LocalID = v: the client stores an ID of its own
+IdSet(n, v) == [n EXCEPT !.id = v]
+EditObjW(w, tg, F(_)) ==
+  CASE tg.t = "global" -> [w EXCEPT !.gl[tg.g][tg.p] = F(@)]
+    [] tg.t = "param"  -> [w EXCEPT !.fn[tg.f].params[tg.p] = F(@)]
+    [] tg.t = "block"  -> [w EXCEPT !.fn[tg.f].blocks[tg.b] = F(@)]
+    [] tg.t = "inst"   -> [w EXCEPT !.fn[tg.f].blocks[tg.b].insts[tg.p] = F(@)]
+    [] tg.t = "term"   -> [w EXCEPT !.fn[tg.f].blocks[tg.b].term = F(@)]
 \* g.Metadata = {!dbg !key} / inst.Metadata = ... (key = 0: no attachment)
 AttachW(w, tg, k) ==
   CASE tg.t = "global" -> [w EXCEPT !.gl.globals[tg.p].att = k]
@@ -737,8 +802,17 @@ PB4 == InsertInstW(PB3, 1, 1, 2, IInst("", "value", "plain", NoRef))
 \* Preset "func": a function with one finished block
 PF1 == NewFuncW(EmptyWorld, "", <<>>)
 PF2 == NewBlockW(PF1, 1, "", Term("ret", "", "none"))
+\* Preset "pair": two functions, the first with an unnamed parameter; each a finished block with a value instruction
+PP1 == NewFuncW(EmptyWorld, "", <<Ent("")>>)
+PP2 == NewBlockW(PP1, 1, "", Term("ret", "", "none"))
+PP3 == InsertInstW(PP2, 1, 1, 1, IInst("", "value", "plain", NoRef))
+PP4 == NewFuncW(PP3, "", <<>>)
+PP5 == NewBlockW(PP4, 2, "", Term("ret", "", "none"))
+PP6 == InsertInstW(PP5, 2, 1, 1, IInst("", "value", "plain", NoRef))
 PresetWorld == CASE Preset = "typed" -> PW6 [] Preset = "indirect" -> PI8 [] Preset = "body" -> PB4
-                 [] Preset = "func" -> PF2 [] OTHER -> EmptyWorld
+                 [] Preset = "func" -> PF2 [] Preset = "pair" -> PP6 [] OTHER -> EmptyWorld
+InsCallF(f, p, res, iop, r) == [op |-> "InsertInst", f |-> f, b |-> 1, p |-> p, nm |-> "", res |-> res,
+                            iop |-> iop, rt |-> r.t, ri |-> r.i, rb |-> r.b, kind |-> "", lit |-> FALSE]
 InsCall(p, res, iop, r) == [op |-> "InsertInst", f |-> 1, b |-> 1, p |-> p, nm |-> "", res |-> res,
                             iop |-> iop, rt |-> r.t, ri |-> r.i, rb |-> r.b, kind |-> "", lit |-> FALSE]
 NewGlobalCall(g) == [op |-> "NewGlobal", g |-> g, nm |-> ""]
@@ -759,6 +833,9 @@ PresetHist ==
          << [op |-> "NewFunc", nm |-> "", ps |-> <<"">>], RetBlockCall,
             InsCall(1, "value", "plain", NoRef), InsCall(2, "value", "plain", NoRef) >>
     [] Preset = "func" -> << [op |-> "NewFunc", nm |-> "", ps |-> <<>>], RetBlockCall >>
+    [] Preset = "pair" ->
+         << [op |-> "NewFunc", nm |-> "", ps |-> <<"">>], RetBlockCall, InsCallF(1, 1, "value", "plain", NoRef),
+            [op |-> "NewFunc", nm |-> "", ps |-> <<>>], [RetBlockCall EXCEPT !.f = 2], InsCallF(2, 1, "value", "plain", NoRef) >>
     [] OTHER -> <<>>
 Room == MaxCalls = 0 \/ Len(hist) < MaxCalls + Len(PresetHist)
 
@@ -814,6 +891,51 @@ NewBlockA ==
     /\ Len(fn[f].blocks) < MaxBlocks
     /\ Mutate(LAMBDA w : NewBlockW(w, f, nm, t),
               [op |-> "NewBlock", f |-> f, nm |-> nm, k |-> t.k, tn |-> t.name, res |-> t.res])
+\* the same through ir.NewBlock + append to the exported slice (Parent stays nil)
+NewDetachedBlockA ==
+  /\ "DetachedBlock" \in Edits
+  /\ \E f \in 1..Len(fn), nm \in NewNames, t \in Terms \cup {NoTerm} :
+       /\ Len(fn[f].blocks) < MaxBlocks
+       /\ Mutate(LAMBDA w : NewBlockW(w, f, nm, t),
+                 [op |-> "NewBlock", f |-> f, nm |-> nm, k |-> t.k, tn |-> t.name, res |-> t.res, det |-> TRUE])
+\* blocks removed from a function / moved to the end of another function
+SimpleBody(body) == ~HasAlloca(body) /\ \A j \in 1..Len(body.blocks) : body.blocks[j].term.k \in {"ret", "none"}
+BlockEditA ==
+  /\ "block" \notin RefTargets
+  /\ \E f \in 1..Len(fn) : \E b \in 1..Len(fn[f].blocks) :
+       /\ SimpleBody(fn[f])
+       /\ \/ /\ "RemoveBlock" \in Edits
+             /\ Mutate(LAMBDA w : RemoveBlockW(w, f, b), [op |-> "RemoveBlock", f |-> f, b |-> b])
+          \/ /\ "MoveBlock" \in Edits
+             /\ \E g \in 1..Len(fn) :
+                  /\ g # f /\ SimpleBody(fn[g]) /\ Len(fn[g].blocks) < MaxBlocks
+                  /\ Mutate(LAMBDA w : MoveBlockW(w, f, b, g), [op |-> "MoveBlock", f |-> f, b |-> b, p |-> g])
+\* m.Globals / m.Aliases / m.IFuncs = the slice without its last entry (only an entry nothing refers to): the
+\* unnamed definitions after it move up by one number
+RefsOfInsts(w) == UNION {UNION {RefsIn(w.fn[f].blocks[b].insts) : b \in 1..Len(w.fn[f].blocks)} : f \in 1..Len(w.fn)}
+RefsOfGroup(s) == {s[i].ref : i \in 1..Len(s)} \ {NoRef}
+AllRefs(w) == RefsOfInsts(w) \cup RefsOfGroup(w.gl.globals) \cup RefsOfGroup(w.gl.aliases)
+RefKind(g) == CASE g = "globals" -> "global" [] g = "aliases" -> "alias" [] OTHER -> "ifunc"
+RemoveGlobalW(w, g) == [w EXCEPT !.gl[g] = SubSeq(@, 1, Len(@) - 1)]
+RemoveGlobalA ==
+  /\ "RemoveGlobal" \in Edits
+  /\ \E g \in Groups3 :
+       /\ Len(gl[g]) > 0
+       /\ Ref(RefKind(g), Len(gl[g])) \notin AllRefs(World)
+       /\ Mutate(LAMBDA w : RemoveGlobalW(w, g), [op |-> "RemoveGlobal", g |-> g, i |-> Len(gl[g])])
+\* identity fields assigned directly
+IdentEditA ==
+  \E tg \in Targets(World) :
+    /\ Exists(World, tg)
+    /\ tg.t = "inst" => Obj(World, tg).res = "value"
+    /\ \/ /\ "SetNameField" \in Edits
+          /\ \E nm \in SetNames \cup NewNames :
+               /\ Obj(World, tg).name # nm
+               /\ Mutate(LAMBDA w : EditObjW(w, tg, LAMBDA n : NameKept(n, nm)), [op |-> "SetNameField", tg |-> tg, nm |-> nm])
+       \/ /\ "SetID" \in Edits
+          /\ \E v \in {0, 2} :               \* clear it / an ID that is wrong at every place of the scaffolds
+               /\ Obj(World, tg).id # v
+               /\ Mutate(LAMBDA w : EditObjW(w, tg, LAMBDA n : IdSet(n, v)), [op |-> "SetID", tg |-> tg, v |-> v])
 \* instructions that can be inserted into function f now
 UseInsts(f) ==
   IF "use" \notin InstOps THEN {}
@@ -932,7 +1054,7 @@ QueryA == \E q \in Observers \cap {"QueryIdent", "QuerySuccs"} :
 
 Next == \/ ParseText
         \/ NewGlobalA \/ NewGlobalRefA \/ NewFuncA \/ NewBlockA \/ InsertInstA \/ RemoveInstA
-        \/ ReplaceInstA \/ SwapInstsA \/ SetTargetA \/ DepEditA
+        \/ ReplaceInstA \/ SwapInstsA \/ SetTargetA \/ DepEditA \/ NewDetachedBlockA \/ BlockEditA \/ RemoveGlobalA \/ IdentEditA
         \/ SetTermA \/ RetargetA \/ SetNameA \/ OperandEditA \/ SetFieldA \/ InsertMdA \/ RemoveMdA \/ AttachMdA
         \/ PrintModuleA \/ PrintFuncA \/ PrintBlockA \/ QueryTypeA \/ QueryOperandsA \/ QueryA
 Spec == Init /\ [][Next]_vars
@@ -975,6 +1097,12 @@ PrintFuncTwiceSame ==
 PrintBlockTwiceSame ==
   \A f \in 1..Len(fn) : \A b \in 1..Len(fn[f].blocks) :
      LET r == PrintBlockW(World, f, b) IN PrintBlockW(r.w, f, b).out = r.out
+\* C14: whether a printing observer returns text or panics does not depend on whether Type() / String() of the
+\* objects were asked before it
+ObserverOrderFree ==
+  \A f \in 1..Len(fn) :
+    /\ PrintFuncW(QueryTypeW(World), f, ValidateOnPrint).out.ok = PrintFuncW(World, f, ValidateOnPrint).out.ok
+    /\ \A b \in 1..Len(fn[f].blocks) : PrintBlockW(QueryTypeW(World), f, b).out.ok = PrintBlockW(World, f, b).out.ok
 \* C14: once the module has been printed, Func.LLString of each function is that function's
 \* part of the module text (same identifiers, in particular the same parameter numbers)
 RECURSIVE FuncParts(_, _)
